@@ -120,7 +120,7 @@ func (t *T) OkE3bRecheck() {
 	t.Unlock()
 	work()
 	t.Lock()
-	if !t.closed {
+	if !t.closed && t.tm == nil {
 		t.tm = time.AfterFunc(time.Second, work)
 	}
 	t.Unlock()
@@ -504,6 +504,21 @@ func OkE11FreshObject(addr string, ready bool) (*holder, error) {
 	return h, nil
 }
 
+// ---- re-arming a timer field
+func (x *N) BadRearm(d time.Duration) {
+	x.tm = time.AfterFunc(d, func() {})
+}
+
+func (x *N) OkRearm(d time.Duration) {
+	if x.tm != nil {
+		x.tm.Stop()
+		x.tm = nil
+	}
+	if d > 0 {
+		x.tm = time.AfterFunc(d, func() {})
+	}
+}
+
 // ---- round-8 rules: requeue, publish order, complete read
 type Q struct {
 	q     chan *mangos.Message
@@ -647,6 +662,7 @@ func runSelfTests(verifDir string) SelfTestResult {
 		nilSafe(p, r8, "e12", "self-test", func(fn *ssa.Function) bool { rel, _ := p.FuncRel(fn); return rel == selfTestRel })
 		waitedChannelStable(p, r8, "e13", self)
 		derivedCoherent(p, r8, "e14", self)
+		rearmStopsPrevious(p, r8, "rearm", self)
 		for _, o := range r8.Obs {
 			if o.Status == Discharged {
 				continue
@@ -688,7 +704,7 @@ func runSelfTests(verifDir string) SelfTestResult {
 		"BadE13Resize":            "e13",
 		"BadE14Add":               "e14",
 	}
-	silent := []string{"okE1Defer", "OkE3Read", "OkE3bRecheck", "OkCondWait", "OkE5Once", "OkE5UniqueThenWrite", "OkE6d", "OkE6dRange", "SetN", "Close", "NewT", "OkE5Loop", "OkBufferBeforeFree", "OkE11Closed", "OkE11StoredFirst", "OkForward", "OkPublish", "OkFullRead", "Arm", "OkE12Stop", "OkE12Helper", "peerReady", "OkE12Companion", "OkE12Map", "OkE12LazyMap", "OkE13Resize", "NewW", "Wait", "OkE14Del", "All", "OkE11FreshObject"}
+	silent := []string{"okE1Defer", "OkE3Read", "OkE3bRecheck", "OkCondWait", "OkE5Once", "OkE5UniqueThenWrite", "OkE6d", "OkE6dRange", "SetN", "Close", "NewT", "OkE5Loop", "OkBufferBeforeFree", "OkE11Closed", "OkE11StoredFirst", "OkForward", "OkPublish", "OkFullRead", "Arm", "OkE12Stop", "OkE12Helper", "peerReady", "OkE12Companion", "OkE12Map", "OkE12LazyMap", "OkE13Resize", "NewW", "Wait", "OkE14Del", "All", "OkE11FreshObject", "OkRearm"}
 	var names []string
 	for k := range want {
 		names = append(names, k)
